@@ -10,7 +10,7 @@
    [rerr s = true]: the read loop has recorded the failure (closeError ran). *)
 From Coq Require Import List ZArith Bool.
 Import ListNotations.
-From Goat Require Import Model.Client Proofs.ClientBase Proofs.ClientInv Proofs.ClientLog Proofs.ClientLive Proofs.ClientProps Proofs.ClientTerm.
+From Goat Require Import Model.Client Proofs.ClientBase Proofs.ClientInv Proofs.ClientLog Proofs.ClientLive Proofs.ClientProps Proofs.ClientTerm Proofs.ClientAfter.
 Open Scope Z_scope.
 
 (* (Q) settles: after the failure, in every quiescent state, a call none of whose threads the environment holds
@@ -57,6 +57,23 @@ Theorem C09_failfast : forall s c k, rerr s = true -> nth_error (calls s) c = So
        exists k', nth_error (calls s') c = Some k' /\ call_pending k' = false /\ k_reg k' = k_reg k).
 Proof. exact C09_failfast_l. Qed.
 Print Assumptions C09_failfast.
+
+(* calls started afterwards, as ONE trace theorem: in every run, once the failure is recorded (state s1), a call
+   whose ANew.. action comes later (index >= the number of calls issued so far) never registers, never takes an
+   envelope, has no stream-loop, and the only thing it ever returns - in every later state s2, whatever the
+   environment and the peer do - is the connection error: never UOk, never RMsg, never a nil open error; and in
+   every quiescent s2 it HAS returned (it does not wait, parked or not) *)
+Theorem C09_after_fails : forall ls1 s1 ls2 s2,
+  lrun init ls1 = Some s1 -> rerr s1 = true -> lrun s1 ls2 = Some s2 ->
+  forall c, (length (calls s1) <= c)%nat ->
+    (forall r, In (EvUnaryRet c r) (log s2) -> r = UErr EConn) /\
+    (forall r, In (EvOpenRet c r) (log s2) -> r = Some EConn) /\
+    (forall r, ~ In (EvRecvRet c r) (log s2)) /\ (forall e, ~ In (EvTake c e) (log s2)) /\
+    (forall k, nth_error (calls s2) c = Some k ->
+       k_reg k = false /\ loop_alive k = false /\
+       (quiescent s2 = true -> call_pending k = false /\ (k_pc k = PRet \/ k_pc k = POpenFailed))).
+Proof. exact C09_after_l. Qed.
+Print Assumptions C09_after_fails.
 
 (* (T) no live-lock. [mu] (Proofs/ClientTerm.v) weighs the unread transport input (8 per envelope), the read loop
    (holding 8 > reading 1 > dead 0) and per call 5 x the rank of the call thread + the ranks of the stream loop and
